@@ -546,6 +546,16 @@ func (c *Ctx) checkC11Writers(handlerOfKind map[string]*ssa.Function) {
 			return f2 == sessVer && core.IsConstInt(0)(s2.Val)
 		}
 		found, _ := core.PathAvoiding(a.Fn, st, core.IsReturn, isReset, cut)
+		if found || cnts[0] == 0 {
+			// the other order: the offered version is checked in a local first and stored only once
+			// it was accepted (the store is behind versionCompare(<stored value>, min) >= 0)
+			isStored := func(v ssa.Value) bool { return core.Strip(v) == core.Strip(st.Val) }
+			gAcceptLocal := core.LessGuard("versionCompare(v,min)>=0", core.IsCallTo(vcmp, isStored), core.IsConstInt(0), false)
+			if okL, cntL := core.GuardedBy(a.Fn, st, gAcceptLocal); okL && cntL[0] > 0 {
+				found = false
+				cnts[0] = 1
+			}
+		}
 		r.Check(!found && cnts[0] > 0, "C11.3c-refused-handshake-leaves-no-version", construct+" [set]", c.pos(st),
 			"every exit after setting the version passes the minimum-version acceptance, the parse-failure edge, or resets it to 0",
 			"a handshake that is refused (unsupported version) leaves Session.ver non-zero: later requests pass the version guard")
@@ -790,7 +800,12 @@ func (c *Ctx) checkSenderHeader() {
 			case *ssa.MapUpdate:
 				if core.IsConstString("sender")(x.Key) {
 					// value must be the session's own uid
-					return core.Derives(x.Value, core.IsCallTo(uidUserId, core.IsFieldLoad(sessUid)), true)
+					// the session's own uid; an empty constant may be merged in on the branch that does
+					// not write the header (`sender := ""; if onBehalf { sender = uid }`)
+					isOwn := core.IsCallTo(uidUserId, core.IsFieldLoad(sessUid))
+					return core.Derives(x.Value, isOwn, false) && core.Derives(x.Value, func(v ssa.Value) bool {
+						return isOwn(v) || core.IsConstString("")(v)
+					}, true)
 				}
 			case *ssa.Call:
 				if b, ok := x.Call.Value.(*ssa.Builtin); ok && b.Name() == "delete" && len(x.Call.Args) == 2 && core.IsConstString("sender")(x.Call.Args[1]) {
